@@ -33,11 +33,20 @@ func (server *GripServer) Submit(ctx context.Context, query *gripql.GraphQuery) 
 	bufsize := 5000 //make this configurable?
 
 	res := pipeline.Start(context.Background(), pipe, man, bufsize, nil, nil)
+	//release the temporary stores of the pipeline once its results are spooled
+	rows := make(chan gdbi.Traveler, bufsize)
+	go func() {
+		defer man.Cleanup()
+		defer close(rows)
+		for t := range res {
+			rows <- t
+		}
+	}()
 	jobID, err := server.jStorage.Spool(query.Graph,
 		&jobstorage.Stream{
 			DataType:  dataType,
 			MarkTypes: markTypes,
-			Pipe:      res,
+			Pipe:      rows,
 			Query:     query.Query,
 		})
 	return &gripql.QueryJob{
